@@ -382,6 +382,7 @@ fn hostile_programs(ctx: &Ctx, rec: &mut Rec, zoo: &[SE]) {
             let bad_first = rand_range(&mut rng, 3) == 0;
             let force = rand_range(&mut rng, 5);
             let pre_ops = rand_range(&mut rng, 4);
+            let pre_touch = rand_range(&mut rng, 5);
             rec.form("hostile program: invalid lazy encoding forced");
             rec.eval(&("hostile-program", pi, ctx.seed), false);
             rec.count("hostile_programs", 1);
@@ -422,6 +423,14 @@ fn hostile_programs(ctx: &Ctx, rec: &mut Rec, zoo: &[SE]) {
                     }
                 }
                 let bad = match bad { Some(v) => v, None => alloc_bad(&cs).map_err(se)? };
+                // operations that touch the hostile variable *without* decoding it come first in some programs
+                // (reading its encoding, cloning it): the order of forcing must not matter
+                let bad = match pre_touch {
+                    1 => { let _ = bad.compress_to_field().map_err(se)?; bad }
+                    2 => { let cl = bad.clone(); let _ = cl.compress_to_field().map_err(se)?; bad }
+                    3 => { let _ = bad.compress_to_field().map_err(se)?; bad.clone() }
+                    _ => bad,
+                };
                 // force the decoding of the hostile variable
                 let forced: Result<(), ark_relations::r1cs::SynthesisError> = (|| {
                     match force {
@@ -438,7 +447,7 @@ fn hostile_programs(ctx: &Ctx, rec: &mut Rec, zoo: &[SE]) {
                 }
                 Ok(Some(cs.is_satisfied().map_err(se)?))
             });
-            let detail = json!({"invalid_encoding": crate::model::hexs(&bad_s), "class": bad_class, "as_public_input": bad_as_input, "allocated_first": bad_first, "padding_witnesses": padding, "valid_registers": valid.iter().map(|(k, _)| *k).collect::<Vec<_>>(), "forced_by": force});
+            let detail = json!({"invalid_encoding": crate::model::hexs(&bad_s), "class": bad_class, "as_public_input": bad_as_input, "allocated_first": bad_first, "padding_witnesses": padding, "valid_registers": valid.iter().map(|(k, _)| *k).collect::<Vec<_>>(), "forced_by": force, "touched_before_forcing": pre_touch});
             match res {
                 Err(_) | Ok(Err(_)) | Ok(Ok(None)) => rec.count("hostile programs: synthesis refused / aborted", 1),
                 Ok(Ok(Some(false))) => rec.count("hostile programs: unsatisfied (as required)", 1),
